@@ -90,7 +90,16 @@ def run(ctx, desc):
                     ctx.case((name, "roundtrip", vclass), nontrivial=v not in (0, 1))
                     if exc2 is None and dec != v:
                         ctx.violation(f"roundtrip:{name}", f"decode(encode({v})) = {dec!r}", {"type": name, "value": v})
-            for p in patterns:
+            for pi, p in enumerate(patterns):
+                if pi % 3 == 0:
+                    # the library hands bytearrays around (CAN message data, transfer buffers): decoding must not touch them
+                    ba = bytearray(p)
+                    dec, exc = _try(var.decode_raw, ba)
+                    dec2, exc2 = _try(var.decode_raw, ba)
+                    ctx.case((name, "decode-pattern-bytearray", vclass))
+                    if exc is None and (exc2 is not None or dec2 != dec):
+                        ctx.violation(f"decode-not-repeatable:{name}", f"decoding the same bytearray {p.hex()} twice gave {dec!r} then {dec2!r}/{exc2!r}",
+                                      {"type": name, "pattern": p})
                 dec, exc = _try(var.decode_raw, p)
                 ctx.case((name, "decode-pattern", vclass))
                 if exc is None:
@@ -175,6 +184,15 @@ def run_strings(ctx, rng, desc):
             dec, exc2 = _try(uni.decode_raw, enc)
             if exc2 is not None or dec != s:
                 ctx.violation("roundtrip:UNICODE_STRING", f"{s!r} -> {enc!r} -> {dec!r}/{exc2!r}", {"s": s})
+    # code points that codecs treat specially (byte-order marks, non-characters, separators), at every position
+    for cp in (0xFEFF, 0xFFFE, 0xFFFF, 0xFFFD, 0xD7FF, 0xE000, 0x0001, 0x007F, 0x0080, 0x00FF, 0x0100, 0x2028, 0x2029, 0x3000, 0x0085):
+        for s in (chr(cp) + "ab", "a" + chr(cp) + "b", "ab" + chr(cp), chr(cp), chr(cp) * 2):
+            enc, exc = _try(uni.encode_raw, s)
+            ctx.case(("UNICODE_STRING", "roundtrip-special", f"{cp:04x}"))
+            if exc is None:
+                dec, exc2 = _try(uni.decode_raw, enc)
+                if exc2 is not None or dec != s:
+                    ctx.violation("roundtrip:UNICODE_STRING", f"{s!r} -> {enc!r} -> {dec!r}/{exc2!r}", {"s": s})
     for _ in range(desc["n_random"] // 4):
         n = rng.randint(0, 40)
         s = "".join(chr(rng.randint(1, 127)) for _ in range(n))
